@@ -182,19 +182,24 @@ def run(rep: Report, tier: str) -> None:
     dt = "vtlengine.DataTypes"
     for rname, rval in sorted(role_members.items()):
         for nullable in (True, False):
-            comp = ExternalObj({"role": rval, "nullable": nullable, "data_type": ClassVal(f"{dt}.Integer"), "name": "C"})
-            it = Interp(P)
-            try:
-                sql = it.call(f, {"table_name": "T", "components": {"C": comp}})
-            except Raised as r:
-                raise AnalysisError(f"build_create_table_sql raised {r.exc}")
-            got = "NOT NULL" in str(sql).upper()
-            want = (rname == "IDENTIFIER") or (not nullable)
-            rep.instance("R19.1", f"not-null/{rname}/{nullable}", nontrivial=True, sample={"role": rname, "nullable": nullable, "sql": sql})
-            if got != want:
-                rep.add(Finding("R19.1", f"R19.1/not-null/{rname}/nullable={nullable}", f.module.rel, f.node.lineno, f.qualname,
-                                f"component with role {rname}, nullable={nullable}: column is declared {'NOT NULL' if got else 'nullable'} "
-                                f"(`{sql}`); identifiers and non-nullable components must reject nulls, others must accept them"))
+            # plain column, and a column whose storage type the loader overrides (Date -> TIMESTAMP: every Date column of a CSV file)
+            for variant, dtype_, extra in (("plain", "Integer", {}), ("type-override", "Date", {"type_overrides": {"C": "TIMESTAMP"}})):
+                comp = ExternalObj({"role": rval, "nullable": nullable, "data_type": ClassVal(f"{dt}.{dtype_}"), "name": "C"})
+                it = Interp(P)
+                try:
+                    sql = it.call(f, dict({"table_name": "T", "components": {"C": comp}}, **extra))
+                except Raised as r:
+                    raise AnalysisError(f"build_create_table_sql raised {r.exc}")
+                got = "NOT NULL" in str(sql).upper()
+                want = (rname == "IDENTIFIER") or (not nullable)
+                key = f"not-null/{rname}/{nullable}" + ("" if variant == "plain" else f"/{variant}")
+                rep.instance("R19.1", key, nontrivial=True, sample={"role": rname, "nullable": nullable, "sql": sql})
+                if variant != "plain" and "TIMESTAMP" not in str(sql).upper():
+                    raise AnalysisError(f"build_create_table_sql ignores type_overrides (`{sql}`): the override variant of R19.1 has lost its anchor")
+                if got != want:
+                    rep.add(Finding("R19.1", f"R19.1/not-null/{rname}/nullable={nullable}" + ("" if variant == "plain" else f"/{variant}"), f.module.rel, f.node.lineno, f.qualname,
+                                    f"component with role {rname}, nullable={nullable}" + ("" if variant == "plain" else " whose storage type is overridden (a Date column stored as TIMESTAMP)")
+                                    + f": column is declared {'NOT NULL' if got else 'nullable'} (`{sql}`); identifiers and non-nullable components must reject nulls, others must accept them"))
     # ordering in _validate_loaded_table (helpers of the same module are followed: see _LoadEvents)
     ev = _LoadEvents(P)
     v = P.func(f"{IO}._validate_loaded_table")
@@ -337,6 +342,10 @@ def run(rep: Report, tier: str) -> None:
     rep.floor("documented Time_Period examples", nex, 10)
     rep.analysed = {"period_limits": limits, "docs_time_formats": doc_fmts, "docs_time_period_examples": nex}
     integer_csv_guard(P, rep, "R19.4")
+    # ---- R19.5 one period, one key: every accepted spelling is normalised to the canonical text BEFORE the duplicate check compares texts ----
+    rep.rule("R19.5", "every accepted spelling of a Time_Period is normalised to the one canonical text (two spellings of one period must meet in the duplicate-key check)")
+    from sa.checks.c21 import spelling_grid
+    spelling_grid(rep, "R19.5", macros, limits)
     rep.assumptions = ["DuckDB regexp_matches has search semantics (patterns are anchored explicitly)",
                        "the load regex is applied to the value after vtl_period_normalize (read from _validate_loaded_table)",
                        "DuckDB read_csv with an integral column type rounds fractional literals instead of rejecting them (observed once on the installed DuckDB while writing R19.4)"]
